@@ -18,7 +18,7 @@ enum AidT { Y_RHS = 400, Y_SEEN, Y_MULTIPOLE, Y_LOCAL, Y_NO_OTHER_OP, Y_SRC_UNTO
 
 // registries of the two trees
 static Registry gRS, gRT;
-struct TFlags { bool geom = false; };
+struct TFlags { bool geom = false; bool periodic = false; };
 static TFlags gTK;
 
 template <class RealType_T, class SpaceIndexType_T>
@@ -54,7 +54,8 @@ public:
     }
     template <class Sym, class CC, class C>
     void M2M(const Sym& hdr, const long level, const CC& low, C& up, const long pos[], const long n) const {
-        if(gTK.geom){
+        if(gTK.geom && gTK.periodic && gRS.byM(&up) == nullptr) virtualM2M(gRS, level, low, up, pos, n);
+        else if(gTK.geom){
             const CellRec* p = gRS.byM(&up);
             bool ok = n >= 1 && p != nullptr && p->level == level && p->idx == hdr.spaceIndex;
             for(long i = 0; i < n && ok; ++i){
@@ -68,7 +69,8 @@ public:
     }
     template <class Sym, class CC, class C>
     void M2L(const Sym& hdr, const long level, const CC& src, const long pos[], const long n, C& tgt) const {
-        if(gTK.geom){
+        if(gTK.geom && gTK.periodic && gRT.byL(&tgt) == nullptr) virtualM2L(level, src, pos, n, tgt);
+        else if(gTK.geom){
             const CellRec* t = gRT.byL(&tgt);
             irsym_assert(n >= 1, YG_N);
             irsym_assert(t != nullptr && t->level == level && t->idx == hdr.spaceIndex, YG_M2L_TGT);
@@ -79,8 +81,10 @@ public:
                 if(s == nullptr) break;
                 const auto rel = Idx::getRelativePosFromInteractionIndex(pos[i]);
                 long maxd = 0;
-                for(int d = 0; d < DIM; ++d){ off = off && (s->coord[d] - t->coord[d]) == rel[d]; const long a = rel[d] < 0 ? -rel[d] : rel[d]; if(a > maxd) maxd = a;
-                    const long tp = t->coord[d] >> 1, sp = s->coord[d] >> 1; off = off && sp - tp >= -1 && sp - tp <= 1; }
+                for(int d = 0; d < DIM; ++d){ const long lim = 1L << level;
+                    if(gTK.periodic) off = off && wrapDelta(s->coord[d] - t->coord[d] - rel[d], lim) == 0; else off = off && (s->coord[d] - t->coord[d]) == rel[d];
+                    const long a = rel[d] < 0 ? -rel[d] : rel[d]; if(a > maxd) maxd = a;
+                    const long tp = t->coord[d] >> 1, sp = (t->coord[d] + rel[d]) >> 1; off = off && sp - tp >= -1 && sp - tp <= 1; }
                 off = off && maxd >= 2;
             }
             irsym_assert(srcok, YG_M2L_SRC); irsym_assert(off, YG_M2L_OFF);
@@ -89,7 +93,8 @@ public:
     }
     template <class Sym, class C, class CC>
     void L2L(const Sym& hdr, const long level, const C& up, CC& low, const long pos[], const long n) const {
-        if(gTK.geom){
+        if(gTK.geom && gTK.periodic && gRT.byL(&up) == nullptr) virtualL2L(gRT, level, up, low, pos, n);
+        else if(gTK.geom){
             const CellRec* p = gRT.byL(&up);
             bool ok = n >= 1 && p != nullptr && p->level == level && p->idx == hdr.spaceIndex;
             for(long i = 0; i < n && ok; ++i){
@@ -118,7 +123,7 @@ public:
             checkLeaf(gRT, NS, NT, thdr, tidx, tdata, nt, YG_P2P_TGT);
             const auto rel = Idx::getRelativePosFromNeighborIndex(code);
             bool off = true; long maxd = 0;
-            for(int d = 0; d < DIM; ++d){ off = off && (shdr.boxCoord[d] - thdr.boxCoord[d]) == rel[d]; const long a = rel[d] < 0 ? -rel[d] : rel[d]; if(a > maxd) maxd = a; }
+            for(int d = 0; d < DIM; ++d){ if(gTK.periodic) off = off && wrapDelta(shdr.boxCoord[d] - thdr.boxCoord[d] - rel[d], Side) == 0; else off = off && (shdr.boxCoord[d] - thdr.boxCoord[d]) == rel[d]; const long a = rel[d] < 0 ? -rel[d] : rel[d]; if(a > maxd) maxd = a; }
             irsym_assert(off && maxd <= 1, YG_P2P_OFF);
         }
         U ss = 0; for(long i = 0; i < ns; ++i) ss += gP.w[sidx[i]];
